@@ -28,3 +28,12 @@ def run_tree(ctx, prop, prop_file, bits, what, rule_extra, assumptions, ninst=1,
         "which leaves were variables / constants, and which callbacks ran are compared with the model (recording proxy)",
     ] + assumptions
     return scs, stats
+
+
+def extra_stream(ctx, prop, bits, what, tag, key, rule, n_quick=50, n_thorough=1500, **gen_opts):
+    """a further stream of scenarios for the same property (other generator options); adds its counts to the coverage"""
+    scs, stats = solve_common.run_generic(ctx, prop, bits=bits, what=what, n_quick=n_quick, n_thorough=n_thorough, tree=True, hist=True,
+                                          tag=tag, **gen_opts)
+    ctx.coverage["evaluations"] += stats["evaluations"]
+    ctx.coverage[key] = {"evaluations": stats["evaluations"], "outcomes": stats["outcomes"], "rule": rule}
+    return scs, stats
